@@ -19,14 +19,14 @@ INFO = {
 }
 
 
-def h_offline(f, N, kind='offline', ext=True, times='origin', twice=0):
+def h_offline(f, N, kind='offline', ext=True, times='origin', twice=0, period=None):
     f = T(f)
     vs = sorted(variables(f))
     uf = refsem.has(f, {'sqrt', 'exp', 'ln', 'pow', 'log'})
 
     def body(env):
         A = env.A
-        s = dt.make_spec(kind, 'out = ' + text(f), vs)
+        s = dt.make_spec(kind, 'out = ' + text(f), vs, period=(tuple(period) + (0.1,)) if period else None)
         w = dt.trace(env, vs, N, ext=ext and not uf)
         if uf:
             for v in vs:
@@ -37,6 +37,8 @@ def h_offline(f, N, kind='offline', ext=True, times='origin', twice=0):
         elif times == 'origin':
             t0 = env.real('t0')
             ts = [t0 + i for i in range(N)]
+        elif period:
+            ts = [i * period[0] / {'s': 1.0, 'ms': 1e3, 'us': 1e6}[period[1]] for i in range(N)]     # in the default unit (s)
         else:
             ts = list(range(N))
         if twice:
@@ -100,6 +102,15 @@ def obligations(tier, rng):
     for f in raws:
         for N in (2, 5):
             out.append(ob('C01', 'offline', 'units/%s/N=%d' % (f[1], N), f=f, N=N, kind='offline', ext=True, times='fixed'))
+    # a sampling period other than 1 s, on the offline class and on the class that has both monitors
+    praws = [('raw', 'once[500ms:1s](x)', ('once_t', X, 1, 2)), ('raw', 'always[0:1](x)', ('always_t', X, 0, 2)), ('raw', '(x) until[0.5:1.5] (y)', ('until_t', X, Y, 1, 3)),
+             ('raw', 'eventually[0:1000ms](historically[500ms:1s](x))', ('eventually_t', ('historically_t', X, 1, 2), 0, 2)),
+             ('raw', '(x) since[1s:1500ms] (y)', ('since_t', X, Y, 2, 3))]
+    for f in praws:
+        for kind in ('offline', 'combined'):
+            out.append(ob('C01', 'offline', 'period500ms/%s/%s/N=6' % (kind, f[1]), f=f, N=6, kind=kind, ext=True, times='period', period=[500, 'ms']))
+    out.append(ob('C01', 'offline', 'period250us/combined/once[250us:500us](x)/N=4', f=('raw', 'once[250us:500us](x)', ('once_t', X, 1, 2)), N=4, kind='combined', ext=True,
+                  times='period', period=[250, 'us']))
     # depth 2 on traces that are shorter than (or exactly as long as) the bound of the inner future operator
     inner_fut = [('eventually_t', X, 0, 3), ('always_t', X, 1, 3), ('until_t', X, Y, 0, 3), ('unless_t', X, Y, 1, 3), ('eventually_t', X, 2, 2)]
     outer_all = ops_un + list(refsem.UNT) + ops_bin + list(refsem.BINT)
